@@ -111,7 +111,7 @@ func genCase(t *rapid.T) (Case, *env.Env) {
 	c := Case{Target: tg}
 	ns := rapid.IntRange(1, 3).Draw(t, "nsessions")
 	for i := 0; i < ns; i++ {
-		s := Session{Type: rapid.SampledFrom([]string{"number", "time"}).Draw(t, "type"), Streams: rapid.Bool().Draw(t, "streams"), Auth: rapid.Bool().Draw(t, "auth"),
+		s := Session{Type: rapid.SampledFrom([]string{"number", "time", "tlnr"}).Draw(t, "type"), Streams: rapid.Bool().Draw(t, "streams"), Auth: rapid.Bool().Draw(t, "auth"),
 			MPD: rapid.SampledFrom(mpds).Draw(t, "mpd"), Slow: rapid.IntRange(0, 4).Draw(t, "slow") == 0}
 		// generated subtitles run on a millisecond timescale: only for assets whose video boundaries are whole ms
 		wholeMS := true
